@@ -9,6 +9,9 @@ and of the three places that drive it with a non-trivial control skeleton:
   `FST.unpar`   (fst.py:3713-3737)            manual `enter() ... fail() | success()`
   `_put_one`    (fst_put_one.py:3216-3339)    guards, handler inside `with`, raw fallback inside a second `with`
   `_put_slice`  (fst_put_slice.py:3853-3903)  same skeleton (no `force`)
+  `FST.put_src(action='reparse')` (fst.py)    `with parent._modifying(False, True): parent._reparse_raw(...)`: this is
+                                              `Prog.withM parent (raw := true) (force := false) body`; the correspondence
+                                              drives the real `put_src` with `_reparse_raw` stubbed to run `body`
 
 plus an abstract edit step `step = validate >> apply` over an abstract tree state (the shape the put handlers are
 supposed to have: all parsing / coercion / validation before the first splice).
